@@ -93,6 +93,13 @@ static void part_pairs(int w_, int W_) {
 			me().cases += 2 + third;
 			char rp[96]; snprintf(rp, sizeof rp, "pair:off=%d,w1=%d,v1=%u,w2=%d,v2=%u,third=%d", off, w1, v1, w2, v2, third);
 			if (ws.cursor() != m.cursor || memcmp(buf.data(), m.bytes, NBYTES)) violation("pair-buffer", rp, "two consecutive fields at offset %d differ from the model", off);
+			{ // one reader following the writer field by field (it has read part of a byte before the rest of that byte is written)
+				B255::Buf lb; B255::Wr lw{lb}; B255::Rd lr{lb}; bool ok = true;
+				for (int i = 0; i < off; ++i) { B255::wr(lw, 1, 1); if (B255::rd(lr, 1) != 1) ok = false; }
+				B255::wr(lw, w1, v1); if (B255::rd(lr, w1) != v1) ok = false;
+				B255::wr(lw, w2, v2); if (B255::rd(lr, w2) != v2) ok = false;
+				if (third) { B255::wr(lw, 3, 5); if (B255::rd(lr, 3) != 5) ok = false; }
+				if (!ok || lr.cursor() != lw.cursor()) violation("reader-in-lockstep", rp, "a read stream following the writer field by field does not return what was just written"); }
 			{ for (int i = 0; i < off; ++i) (void)B255::rd(early, 1); const uint32_t e1 = B255::rd(early, w1), e2 = B255::rd(early, w2); if (e1 != v1 || e2 != v2) violation("reader-attached-before-writes", rp, "a read stream constructed before the writes reads %u,%u, written %u,%u", e1, e2, v1, v2); }
 			B255::Rd rs{buf}; for (int i = 0; i < off; ++i) (void)B255::rd(rs, 1);
 			const uint32_t g1 = B255::rd(rs, w1), g2 = B255::rd(rs, w2);
